@@ -29,6 +29,10 @@ func main() {
 		err = cmdApp(*in, *out)
 	case "sort":
 		err = cmdSort(*in, *out)
+	case "syncmap":
+		err = cmdSyncMap(*in, *out)
+	case "race":
+		err = cmdRace(*in)
 	case "cache":
 		err = cmdCache(*in, *out, *names)
 	default:
